@@ -56,6 +56,14 @@ fn tiling_case(text: &str) -> i32 {
             bad = 1;
         }
         if let TokenKind::Number(n) = &t.kind {
+            if n.radix == 16 {
+                let txt: String = chars[t.span.start.min(len)..t.span.end.min(len)].iter().collect();
+                let denotes = txt.strip_prefix("0x").and_then(|d| u64::from_str_radix(d, 16).ok()).map(|v| v as f64);
+                if denotes != Some(n.value.0) {
+                    println!("VIOLATED: hexadecimal number token {i} covers {txt:?} but carries the value {}", n.value.0);
+                    bad = 1;
+                }
+            }
             if let Some(sfx) = n.suffix {
                 let want = sfx.to_chars();
                 let got: Vec<char> = chars[t.span.end.saturating_sub(2).min(len)..t.span.end.min(len)].iter().map(|c| c.to_ascii_lowercase()).collect();
@@ -926,6 +934,29 @@ fn ignore_case(mode: &str, spec: &str) -> i32 {
         }
         out
     };
+    if mode == "append" {
+        // two lists, one lint ignored in each, the second appended to the first: both must be hidden afterwards. The hashes (and
+        // hence any order-dependent behaviour of the container) are the real ones, so a range of messages is tried.
+        let j = v["other_token"].as_u64().unwrap_or(0) as usize;
+        let Some(tj) = d1.get_tokens().get(j) else { return 0; };
+        for m1 in 'a'..='h' { for m2 in 'a'..='h' { for m3 in ['x', 'y'] {
+            let fa = (LintKind::Spelling, m1.to_string(), 1u8, 'q');
+            let fb = (LintKind::Style, m2.to_string(), 2u8, 'r');
+            let fc = (LintKind::Style, m3.to_string(), 3u8, 's');
+            let (a, b, c) = (mk(ti, &fa), mk(tj, &fb), mk(tj, &fc));
+            let mut l1 = IgnoredLints::new();
+            l1.ignore_lint(&a, &d1);
+            l1.ignore_lint(&c, &d1);
+            let mut l2 = IgnoredLints::new();
+            l2.ignore_lint(&b, &d1);
+            l1.append(l2);
+            let mut l = vec![a.clone(), b.clone(), c.clone()];
+            l1.remove_ignored(&mut l, &d1);
+            if !l.is_empty() { println!("VIOLATED: in {:?}, after appending an ignore list to another, {} of the 3 ignored lints are reported again (messages {m1:?}, {m2:?}, {m3:?})", docs[0], l.len()); return 1; }
+        } } }
+        println!("ok: appended ignore lists keep hiding their lints on {:?}", docs[0]);
+        return 0;
+    }
     match mode {
         "same" => {
             let j = v["other_token"].as_u64().unwrap() as usize;
